@@ -1204,6 +1204,18 @@ class RawAlgorithmsMixIn:
 
         (xbar_data, ybar_data) = out
 
+        if x_data.ndim == 4 and y_data.ndim == 3:
+            # matrix-vector product: treat y and z as one-column matrices
+            y_data = y_data[..., numpy.newaxis]
+            ybar_data = ybar_data[..., numpy.newaxis]
+            zbar_data = zbar_data[..., numpy.newaxis]
+
+        elif x_data.ndim == 3 and y_data.ndim == 4:
+            # vector-matrix product: treat x and z as one-row matrices
+            x_data = x_data[:, :, numpy.newaxis, :]
+            xbar_data = xbar_data[:, :, numpy.newaxis, :]
+            zbar_data = zbar_data[:, :, numpy.newaxis, :]
+
         xbar_data += cls._dot(zbar_data, cls._transpose(y_data), out = xbar_data.copy())
         ybar_data += cls._dot(cls._transpose(x_data), zbar_data, out = ybar_data.copy())
 
